@@ -42,10 +42,14 @@ def run(ctx):
     g = CFG(sample.node)
     lp = g.loop_of(loop_node)
 
+    from .smcloop import checkpoint_closure
+    mc0 = checkpoint_closure(repo)
+    cp_name = mc0.name if mc0 is not None else None
+
     def cp_calls(node, forced):
         out = []
         for c in calls_in(node.ast):
-            if isinstance(c.func, ast.Name) and "checkpoint" in c.func.id:
+            if isinstance(c.func, ast.Name) and c.func.id == cp_name:
                 is_forced = bool(any(k.arg == "force" and isinstance(k.value, ast.Constant) and k.value.value is True for k in c.keywords) or (
                     c.args and isinstance(c.args[0], ast.Constant) and c.args[0].value is True))
                 if is_forced == forced:
@@ -70,10 +74,7 @@ def run(ctx):
                "the forced final checkpoint post-dominates the loop and the loop-skipping branch", why, disc="final")
 
     # cadence predicate of the closure
-    try:
-        mc = repo.func(f"{sample.ident}.<locals>.maybe_checkpoint")
-    except AnalysisError:
-        mc = next(iter(sample.nested.values()), None)
+    mc = mc0
     if mc is None:
         ctx.unknown("C12.cad", sample.ident, loc_of(sample), "checkpoint closure not found", disc="predicate")
     else:
